@@ -413,6 +413,7 @@ def node_methods(ctx: Ctx, chk) -> None:
         if f is None:
             raise AnalysisError(f"anchor vanished: Node.{mname}")
         chk.instance(rule)
+        f = ctx.inl(f)  # the store may sit in a private helper of the node (a guarded-access collaborator, written out)
         evs = [e for e, _ in registry_events(ctx, f)]
         if len(evs) == 1 and evs[0] in alts:
             chk.ok(rule, f.fq, evs[0], f.where)
